@@ -214,6 +214,7 @@ Proof.
   apply negb_true_iff in Hnew. pose proof (existsb_false_count _ _ Hnew) as Hn0.
   rewrite Hex in Hc, Hell. rewrite countb_app, countb_repeat in Hc, Hell.
   change (consumes INewaxis) with false in Hc. change (is_ell INewaxis) with false in Hell.
+  cbv iota in Hc, Hell.
   pose proof (countb_nonneg is_ell per).
   pose proof (item_kinds per) as K.
   assert (HF : Forall plain per).
@@ -221,4 +222,195 @@ Proof.
     - eapply countb_0_forall; [exact Hn0 | exact Hin].
     - eapply countb_0_forall; [|exact Hin]. lia. }
   repeat split; try assumption; lia.
+Qed.
+
+(* ------------------------------------------------------------------ identities of full selections *)
+Lemma every_nth_1 {A} (l : list A) : every_nth_aux 0 1 l = l.
+Proof. induction l as [|a l IH]; [reflexivity|]. cbn. now rewrite IH. Qed.
+
+Lemma py_slice_full {A} (l : list A) : py_slice None None l = l.
+Proof.
+  unfold py_slice, py_lo, py_hi. replace (Z.to_nat (zlen l - 0)) with (length l) by (unfold zlen; lia).
+  cbn [Z.to_nat skipn]. apply firstn_all.
+Qed.
+
+Lemma py_slice_step_1 {A} a b (l : list A) : py_slice_step a b 1 l = py_slice a b l.
+Proof. unfold py_slice_step. change (Z.to_nat 1) with 1%nat. apply every_nth_1. Qed.
+
+Lemma py_slice_step_full {A} (l : list A) : py_slice_step None None 1 l = l.
+Proof. now rewrite py_slice_step_1, py_slice_full. Qed.
+
+Lemma take_sel_full {A} (d : A) (l : list A) : take_sel d full l = l.
+Proof. apply py_slice_step_full. Qed.
+
+Lemma mask_sel_all {A} bs (l : list A) :
+  forallb (fun b => b) bs = true -> zlen bs = zlen l -> mask_sel bs l = l.
+Proof.
+  revert l. induction bs as [|b bs IH]; intros l Ht Hl.
+  - symmetry. apply zlen_0_nil. rewrite <- Hl. reflexivity.
+  - destruct l as [|x l]; [rewrite zlen_cons, zlen_nil in Hl; pose proof (zlen_nonneg bs); lia|].
+    cbn [forallb] in Ht. apply andb_prop in Ht. destruct Ht as [-> Ht].
+    cbn [mask_sel]. rewrite IH; [reflexivity | exact Ht | rewrite !zlen_cons in Hl; lia].
+Qed.
+
+(* ------------------------------------------------------------------ the attribute fix-up, item by item *)
+Definition fixups (x : pd) (sh : list Z) (d : nest) (s : list nitem) : res :=
+  match split3 s with
+  | None => RErr EUnbound
+  | Some (es, cs, ts) =>
+    match fix_time true x ts with
+    | inl e => RErr e
+    | inr (s0', fsd') =>
+      match fix_chan true cs (finalize_chan (chan x) sh) with
+      | inl e => RErr e
+      | inr ch' =>
+        match fix_meta es (meta x) with
+        | inl e => RErr e
+        | inr md' => RArr {| shape := sh; dat := d; s0 := s0'; fsn := fsn x; fsd := fsd';
+                             chan := ch'; meta := md' |}
+        end
+      end
+    end
+  end.
+
+Lemma getitem_fixups x ix sh d s :
+  np_getitem (shape x) (dat x) (items ix) = NPArr sh d ->
+  normalize_index true ix (ndim x) = inr s ->
+  getitem x ix = fixups x sh d s.
+Proof. unfold getitem, getitem_gen, fixups. intros -> ->. reflexivity. Qed.
+
+Lemma fix_time_slice x a b c : 0 <= n_time x ->
+  fix_time true x (NSlice a b c) = inr (s0 x + py_lo (n_time x) a, fsd x * step_of c).
+Proof.
+  intros Hn. unfold fix_time, py_lo, adj_bound, step_of. f_equal. f_equal.
+  - destruct a as [st|]; [|lia].
+    rewrite Z.gtb_ltb. destruct (0 <? st) eqn:E1; destruct (st <? 0) eqn:E2; lia.
+  - destruct c; lia.
+Qed.
+
+Definition axis_item (it : item) : bool := is_int it || is_slice it || is_adv it.
+
+Lemma plain_axis_item it : plain it -> axis_item it = true.
+Proof. intros [H1 H2]. destruct it; try reflexivity; discriminate. Qed.
+
+Lemma fix_chan_sel it l : axis_item it = true -> sel_ok (zlen l) it = true ->
+  fix_chan true (Some (conv1 it)) (LMany l) = inr (sel_lab it (LMany l)).
+Proof.
+  intros Ha Hok. destruct it; try discriminate; cbn [conv1 fix_chan sel_lab sel_ok take_sel] in *.
+  - now rewrite Hok.
+  - reflexivity.
+  - unfold sequence_idx. now rewrite Hok.
+  - now rewrite Hok.
+Qed.
+
+Lemma fix_meta_sel it l : axis_item it = true -> sel_ok (zlen l) it = true ->
+  fix_meta (Some (conv1 it)) (LMany l) = inr (sel_lab it (LMany l)).
+Proof.
+  intros Ha Hok. destruct it; try discriminate; cbn [conv1 fix_meta sel_lab sel_ok take_sel] in *.
+  - now rewrite Hok.
+  - reflexivity.
+  - unfold sequence_idx. now rewrite Hok.
+  - now rewrite Hok.
+Qed.
+
+(* ------------------------------------------------------------------ the regular case of __getitem__ *)
+Lemma np_getitem_regular sh d its ex k per d0 d' :
+  np_expand (zlen sh) its = Some ex -> strip_new ex = (k, per) -> regular_per per = true ->
+  k + zlen sh <= 3 -> all_ok per sh = true -> np_regular d per = Some d0 -> wrap_new k d0 = Some d' ->
+  np_getitem sh d its = NPArr (repeat 1 (Z.to_nat k) ++ out_shape per sh) d'.
+Proof.
+  unfold np_getitem. intros -> -> -> Hk -> -> ->.
+  replace (k + zlen sh <=? 3) with true by lia. reflexivity.
+Qed.
+
+Ltac wf_cases x H :=
+  destruct x as [sh d xs0 xfn xfd ch md]; unfold wf in H; cbn [shape dat chan meta] in H;
+  destruct sh as [|t1 [|t2 [|t3 [|t4 sh]]]]; try contradiction;
+  destruct d; try contradiction; destruct ch; try contradiction; destruct md; try contradiction.
+
+Definition spec_result (x : pd) (k : Z) (per : list item) (d' : nest) : pd :=
+  {| shape := repeat 1 (Z.to_nat k) ++ out_shape per (shape x); dat := d';
+     s0 := s0 x + py_lo (n_time x) (slice_start (time_item per));
+     fsn := fsn x; fsd := fsd x * slice_step (time_item per);
+     chan := spec_chan k per (chan x); meta := spec_meta k per (meta x) |}.
+
+Ltac split_ok H :=
+  repeat match type of H with
+         | (_ && _) = true => let H1 := fresh "Hok" in apply andb_prop in H; destruct H as [H1 H]
+         end.
+
+Lemma getitem_regular_tuple x ix k per :
+  all_true_arr ix = false -> wf x -> denotes (ndim x) ix k per -> valid_on (shape x) per ->
+  exists d0 d', np_regular (dat x) per = Some d0 /\ wrap_new k d0 = Some d' /\
+                getitem x ix = RArr (spec_result x k per d').
+Proof.
+  intros Hns Hwf Hd Hv.
+  destruct (denotes_shape _ _ _ _ Hd) as (ex & He & Hs & Hex & Hk0 & Hk & Hlen & HF & Hsl & Hadv).
+  destruct Hd as (ex0 & He0 & Hs0 & Hr & _).
+  pose proof (normalize_expand _ _ _ Hns He) as Hnorm.
+  assert (Hnp : forall d0 d', np_regular (dat x) per = Some d0 -> wrap_new k d0 = Some d' ->
+                np_getitem (shape x) (dat x) (items ix) =
+                NPArr (repeat 1 (Z.to_nat k) ++ out_shape per (shape x)) d').
+  { intros d0 d' H0 H1. eapply np_getitem_regular; eauto. }
+  rewrite Hex in Hnorm. clear He Hs Hex ex He0 Hs0 ex0 Hr Hns.
+  unfold valid_on in Hv. unfold spec_result.
+  wf_cases x Hwf; unfold ndim in *; cbn [shape dat chan meta s0 fsn fsd] in *.
+  - (* 1-D *)
+    change (zlen [t1]) with 1 in *.
+    destruct per as [|it [|? ?]]; try (rewrite ?zlen_cons, ?zlen_nil in Hlen; pose proof (zlen_nonneg l); lia).
+    destruct it as [| a b c | | | |]; try discriminate Hsl.
+    cbn [all_ok] in Hv. split_ok Hv.
+    assert (Hk' : k = 0 \/ k = 1 \/ k = 2) by lia.
+    assert (Hn : 0 <= n_time {| shape := [t1]; dat := N1 r; s0 := xs0; fsn := xfn; fsd := xfd; chan := LOne z; meta := LOne z0 |})
+      by (unfold n_time; cbn; pose proof (zlen_nonneg r); lia).
+    destruct Hk' as [->|[->|->]]; cbn [Z.to_nat repeat app Pos.to_nat Pos.iter_op Nat.add map conv1] in Hnorm;
+      (eexists; eexists; split; [reflexivity|]; split; [reflexivity|]);
+      rewrite (getitem_fixups _ _ _ _ _ (Hnp _ _ eq_refl eq_refl) Hnorm);
+      unfold fixups; cbn [split3]; rewrite (fix_time_slice _ _ _ _ Hn);
+      cbn [shape dat chan meta s0 fsn fsd time_item last slice_start slice_step spec_chan spec_meta
+           fix_chan fix_meta wrap_lab Z.gtb Z.compare].
+    + reflexivity.
+    + unfold finalize_chan. destruct (z =? none_id) eqn:Ez; cbn.
+      * apply Z.eqb_eq in Ez. subst z. reflexivity.
+      * reflexivity.
+    + unfold finalize_chan. destruct (z =? none_id) eqn:Ez; cbn.
+      * apply Z.eqb_eq in Ez. subst z. reflexivity.
+      * reflexivity.
+  - (* 2-D *)
+    destruct Hwf as (Ht & [Hb1 Hb2] & Hl).
+    change (zlen [t1; t2]) with 2 in *.
+    destruct per as [|ic [|it [|? ?]]]; try (rewrite ?zlen_cons, ?zlen_nil in Hlen; pose proof (zlen_nonneg l); lia).
+    destruct it as [| a b0 c | | | |]; try discriminate Hsl.
+    cbn [all_ok] in Hv. split_ok Hv.
+    assert (Hk' : k = 0 \/ k = 1) by lia.
+    assert (Hn : 0 <= n_time {| shape := [t1; t2]; dat := N2 b; s0 := xs0; fsn := xfn; fsd := xfd; chan := LMany zs; meta := LOne z |})
+      by (unfold n_time; cbn; lia).
+    inversion HF as [|? ? Hpic _]; subst. apply plain_axis_item in Hpic.
+    rewrite <- Hl in Hok.
+    destruct Hk' as [->|->]; cbn [Z.to_nat repeat app Pos.to_nat Pos.iter_op Nat.add map conv1] in Hnorm;
+      destruct ic; try discriminate Hpic;
+      (eexists; eexists; split; [reflexivity|]; split; [reflexivity|]);
+      rewrite (getitem_fixups _ _ _ _ _ (Hnp _ _ eq_refl eq_refl) Hnorm);
+      unfold fixups; cbn [split3]; rewrite (fix_time_slice _ _ _ _ Hn);
+      cbn [shape dat chan meta s0 fsn fsd finalize_chan]; rewrite (fix_chan_sel _ _ Hpic Hok);
+      reflexivity.
+  - (* 3-D *)
+    destruct Hwf as (Hc & Ht & He & Hrect & Hl & Hm).
+    change (zlen [t1; t2; t3]) with 3 in *.
+    destruct per as [|ie [|ic [|it [|? ?]]]]; try (rewrite ?zlen_cons, ?zlen_nil in Hlen; pose proof (zlen_nonneg l); lia).
+    destruct it as [| a b0 c | | | |]; try discriminate Hsl.
+    cbn [all_ok] in Hv. split_ok Hv.
+    assert (k = 0) by lia. subst k.
+    assert (Hn : 0 <= n_time {| shape := [t1; t2; t3]; dat := N3 d; s0 := xs0; fsn := xfn; fsd := xfd; chan := LMany zs; meta := LMany zs0 |})
+      by (unfold n_time; cbn; lia).
+    inversion HF as [|? ? Hpie HF']; subst. inversion HF' as [|? ? Hpic _]; subst.
+    apply plain_axis_item in Hpic. apply plain_axis_item in Hpie.
+    rewrite <- Hm in Hok. rewrite <- Hl in Hok0.
+    cbn [Z.to_nat repeat app map conv1] in Hnorm;
+      destruct ie; try discriminate Hpie; destruct ic; try discriminate Hpic;
+      (eexists; eexists; split; [reflexivity|]; split; [reflexivity|]);
+      rewrite (getitem_fixups _ _ _ _ _ (Hnp _ _ eq_refl eq_refl) Hnorm);
+      unfold fixups; cbn [split3]; rewrite (fix_time_slice _ _ _ _ Hn);
+      cbn [shape dat chan meta s0 fsn fsd finalize_chan]; rewrite (fix_chan_sel _ _ Hpic Hok0);
+      rewrite (fix_meta_sel _ _ Hpie Hok); reflexivity.
 Qed.
